@@ -38,7 +38,7 @@ import time
 import traceback
 from typing import Any, Dict, List, Optional, Tuple
 
-from harness.lib import coqbuild, gcsim
+from harness.lib import coqbuild, docdamage, gcsim
 from harness.props import c05 as h5
 
 LEVEL = "proof"
@@ -245,9 +245,9 @@ def judge(spec_grace: int, now: float, reach: set, live: set, markers_before: Di
         cls = "reachable" if set(lost) & reach else "live-protected"
         viol.append({"key": f"deleted-{cls}:{what}", "what": f"{what}: collection deleted {cls} file(s) {lost[:3]} (raised={real['raised']} {real.get('exc_type')})"})
     if real["raised"]:
-        if fault_pos != "refresh" and not real.get("aborted_type_ok"):
+        if fault_pos not in ("refresh", "doc") and not real.get("aborted_type_ok"):
             viol.append({"key": f"wrong-exception:{what}", "what": f"{what}: collection raised {real['exc_type']} instead of GarbageCollectionAborted: {real['exc']}"})
-        if fault_pos in ("refresh", "pre") and deleted:
+        if fault_pos in ("refresh", "pre", "doc") and deleted:
             viol.append({"key": f"abort-after-delete:{what}", "what": f"{what}: collection raised {real['exc_type']} but had already deleted {sorted(deleted)[:3]}"})
         if deleted - orphans:
             viol.append({"key": f"abort-deleted-non-orphan:{what}", "what": f"{what}: raised, and deleted files that are not old unreferenced orphans: {sorted(deleted - orphans)[:3]}"})
@@ -324,7 +324,8 @@ def run_table(spec: Dict[str, Any]) -> Dict[str, Any]:
                     t = load_table(dst)          # opened while intact; the damage happens before the collection
                     if damage is not None:
                         apply_damage(dst, *damage)
-                        store = gcsim.store_term(dst)
+                        if not isinstance(damage[1], dict):      # structured damage: the document goes to Model/Doc.v, not the store
+                            store = gcsim.store_term(dst)
                     before = gcsim.list_tree(dst)
                     real = gcsim.run_collect(t, grace, now, plan)
                 after = gcsim.list_tree(dst)
@@ -493,6 +494,66 @@ def run_table(spec: Dict[str, Any]) -> Dict[str, Any]:
             r["store"], r["pointer_plane"], r["not_judged"], r["violations"] = None, True, True, []
             out["stats"]["stale_hint_completed_deleting"] = len(set(r["before"]) - set(r["after"])) if not r["real"]["raised"] else -1
             out["runs"].append(r)
+        # ---- STRUCTURED damage of the documents (harness/lib/docdamage.py): the file is still good JSON / a good Avro container,
+        #      but a key is gone, null, of another type, or a list is emptied -- at every key path of the current metadata file
+        #      and of reachable lists / manifests.  Judged by the property's text: the collection raises (any exception) having
+        #      deleted nothing, or every reachable and live file is still in its keep sets and on storage.  A value emptied in
+        #      place (same type) leaves a well-formed document that says something else: recorded, not judged.
+        import json
+        full_ops = thorough or only is not None
+
+        def doc_run(key: str, fmt: str, role: str, ordinal: int, op: Dict[str, Any], size: str) -> None:
+            desc = {"type": "doc", "target": [role, ordinal], "op": op}
+            if not wanted(desc):
+                return
+            lab, pl = docdamage.op_label(op), docdamage.path_label(op["path"])
+            what = f"doc:{lab}:{role}:{pl}"
+            r = one(None, (key, dict(op, doc=fmt)), "doc", what, desc)
+            r["store"], r["no_model"], r["doc"] = None, True, {"fmt": fmt, "role": role, "op": op}
+            out["stats"]["doc_damage_runs"] = out["stats"].get("doc_damage_runs", 0) + 1
+            gone = sorted((set(r["before"]) - set(r["after"])) & (reach | live))
+            if op["op"] in ("empty", "zero-records"):
+                r["violations"], r["not_judged"] = [], True
+                out["stats"]["doc_emptied_in_place_not_judged"] = out["stats"].get("doc_emptied_in_place_not_judged", 0) + 1
+                if gone:
+                    out["stats"]["doc_emptied_in_place_deleted_reachable"] = out["stats"].get("doc_emptied_in_place_deleted_reachable", 0) + 1
+            elif not r["real"]["raised"] and not protection_kept(r["real"], reach, live):
+                r["violations"].append({"key": f"doc-damage-not-detected:{lab}:{role}:{pl}", "desc": desc,
+                                        "what": f"{role} #{ordinal} ({key}, {size}) is still well-formed {fmt.upper()} but its key path "
+                                                f"{'/'.join(map(str, op['path']))} was damaged ({lab}): the collection completed with reachable / live "
+                                                f"files missing from its keep sets, deleting {gone[:4]} ({len(gone)} reachable / live file(s) in all)"})
+            out["runs"].append(r)
+
+        if not (only is not None and only.get("type") not in (None, "doc")):
+            meta_doc = json.loads(open(os.path.join(root, cur_meta)).read())
+            for op in docdamage.json_ops(meta_doc, full_ops, rng):
+                doc_run(cur_meta, "json", "current-metadata", 0, op, f"{len(meta_doc.get('snapshots') or [])} snapshot(s)")
+            doc_targets = list(targets)
+            if not full_ops:
+                # quick: the newest list, the manifest with the most records, and one more of each chosen by the seed
+                by_role = {"list": [t for t in targets if t[0] == "list"], "manifest": [t for t in targets if t[0] == "manifest"]}
+                doc_targets = []
+                for role in ("list", "manifest"):
+                    ts = by_role[role]
+                    if not ts:
+                        continue
+                    sizes = {t: len(gcsim.avro_probe(open(os.path.join(root, t[2]), "rb"))["paths"]) for t in ts}
+                    first = ts[-1] if role == "list" else max(ts, key=lambda t: sizes[t])
+                    rest = [t for t in ts if t != first]
+                    doc_targets += [first] + (rng.sample(rest, 1) if rest else [])
+            for role, ordinal, key in doc_targets:
+                bs = open(os.path.join(root, key), "rb").read()
+                try:
+                    schema, recs = docdamage.avro_load(bs)
+                except Exception:  # noqa: BLE001 - a legacy JSON file
+                    jdoc = json.loads(bs.decode("utf-8"))
+                    for op in docdamage.json_ops(jdoc, full_ops, rng):
+                        doc_run(key, "json", role, ordinal, op, "legacy JSON")
+                    continue
+                for op in docdamage.avro_ops(schema, recs, full_ops, rng):
+                    if docdamage.apply_avro_op(schema, recs, op) is None:
+                        continue
+                    doc_run(key, "avro", role, ordinal, op, f"{len(recs)} record(s)")
         for r in out["runs"]:
             out["stats"]["raised" if r["real"]["raised"] else "absorbed"] += 1
             out["violations"].extend(r["violations"])
@@ -516,10 +577,27 @@ def damaged_bytes(bs: bytes, dmg: Tuple[Any, ...]) -> bytes:
     raise ValueError(dmg)
 
 
+def doc_damaged_bytes(bs: bytes, dmg: Dict[str, Any]) -> bytes:
+    """Structured damage (harness/lib/docdamage.py) of a JSON document or an Avro container."""
+    import json
+    if dmg["doc"] == "json":
+        return json.dumps(docdamage.apply_json_op(json.loads(bs.decode("utf-8")), dmg), indent=2).encode("utf-8")
+    schema, recs = docdamage.avro_load(bs)
+    new = docdamage.apply_avro_op(schema, recs, dmg)
+    if new is None:
+        raise ValueError(f"no such container: {dmg}")
+    return new
+
+
 def apply_damage(root: str, key: str, dmg: Any) -> None:
     full = os.path.join(root, key)
     st = os.stat(full)
     bs = open(full, "rb").read()
+    if isinstance(dmg, dict):
+        with open(full, "wb") as f:
+            f.write(doc_damaged_bytes(bs, dmg))
+        os.utime(full, (st.st_mtime, st.st_mtime))
+        return
     if isinstance(dmg, (tuple, list)):
         with open(full, "wb") as f:
             f.write(damaged_bytes(bs, tuple(dmg)))
@@ -728,7 +806,8 @@ def run_campaign(ctx) -> None:
         agg["storage_calls_per_collection"].append(res["stats"]["calls"])
         agg["fault_runs"] += res["stats"]["fault_runs"]
         agg["damage_runs"] += res["stats"]["damage_runs"]
-        for k2 in ("byte_damage_runs", "stream_fault_runs", "still_parses_not_judged", "stream_faults_undetectable_short_read", "timeouts"):
+        for k2 in ("byte_damage_runs", "stream_fault_runs", "still_parses_not_judged", "stream_faults_undetectable_short_read", "timeouts",
+                   "doc_damage_runs", "doc_emptied_in_place_not_judged", "doc_emptied_in_place_deleted_reachable"):
             agg[k2] = agg.get(k2, 0) + res["stats"].get(k2, 0)
         agg.setdefault("records_per_list", []).append(res.get("shape", {}).get("lists"))
         agg.setdefault("records_per_manifest", []).append(res.get("shape", {}).get("manifests"))
@@ -739,6 +818,9 @@ def run_campaign(ctx) -> None:
         pspec = {k: spec[k] for k in spec if k != "base"}
         for v in res["violations"]:
             ctx.violation(v["key"], v["what"], {"spec": pspec, "campaign": "faults", "only": v.get("desc")})
+        for run in res["runs"]:
+            if run.get("doc"):
+                ctx.count(1, ("doc", len(recs), run["what"], repr(run["doc"]["op"])))
         m = res["model"]
         stage1.append(gcsim.gc_expr(m["tp"], m["grace"], m["now_ms"], TIMEOUT_MS, [], m["snaps"], f"base{len(recs)}"))
         recs.append((spec, res))
